@@ -18,6 +18,19 @@ fn arg(name: &str, default: &str) -> String {
     args.iter().position(|a| a == name).and_then(|i| args.get(i + 1).cloned()).unwrap_or_else(|| default.to_string())
 }
 
+/// a core extern in the shape of Types.tla's externs
+fn extern_desc(x: &wac_types::CoreExtern) -> Value {
+    use wac_types::CoreExtern as X;
+    let list = |v: &Vec<wac_types::CoreType>| v.iter().map(|t| t.to_string()).collect::<Vec<_>>().join(",");
+    match x {
+        X::Func(f) => json!({"x": "cfunc", "sig": format!("{}->{}", list(&f.params), list(&f.results))}),
+        X::Memory { memory64, shared, initial, maximum, .. } => {
+            json!({"x": "mem", "init": initial, "max": maximum.map(|m| m as i64).unwrap_or(-1), "shared": shared, "m64": memory64})
+        }
+        other => json!({"x": "other", "desc": format!("{other:?}")}),
+    }
+}
+
 /// the abstract kind term (shape of spec/Agg.tla's kinds) of a real item kind
 fn describe(types: &Types, sigs: &HashMap<String, String>, kind: ItemKind, with_uses: bool) -> Value {
     match kind {
@@ -45,6 +58,15 @@ fn describe(types: &Types, sigs: &HashMap<String, String>, kind: ItemKind, with_
         }
         ItemKind::Type(Type::Value(v)) => json!({"c": "rtype", "desc": value_desc(types, v)}),
         ItemKind::Type(Type::Resource(_)) => json!({"c": "rtype", "desc": "resource"}),
+        ItemKind::Component(id) => {
+            let side = |m: &indexmap::IndexMap<String, ItemKind>| Value::Object(m.iter().map(|(n, k)| (n.clone(), describe(types, sigs, *k, with_uses))).collect());
+            json!({"c": "comp", "im": side(&types[id].imports), "ex": side(&types[id].exports)})
+        }
+        ItemKind::Module(id) => {
+            let im: Map<String, Value> = types[id].imports.iter().map(|((m, n), x)| (format!("{m}::{n}"), extern_desc(x))).collect();
+            let ex: Map<String, Value> = types[id].exports.iter().map(|(n, x)| (n.clone(), extern_desc(x))).collect();
+            json!({"c": "mod", "im": Value::Object(im), "ex": Value::Object(ex)})
+        }
         other => json!({"c": "other", "desc": other.desc(types)}),
     }
 }
@@ -141,6 +163,18 @@ fn norm_spec(v: &Value, real: Option<&Value>) -> Value {
                 }
             }
             json!({"c": "inst", "ex": Value::Object(ex), "us": Value::Object(us)})
+        }
+        Some(c @ ("comp" | "mod")) => {
+            let side = |s: &str| {
+                let mut m = Map::new();
+                if let Some(o) = v[s].as_object() {
+                    for (n, k) in o {
+                        m.insert(n.clone(), if c == "comp" { norm_spec(k, real.map(|r| &r[s][n.as_str()])) } else { k.clone() });
+                    }
+                }
+                Value::Object(m)
+            };
+            json!({"c": c, "im": side("im"), "ex": side("ex")})
         }
         _ => v.clone(),
     }
@@ -314,6 +348,32 @@ fn main() {
                 }
                 reqs.push((k, name.clone(), kind));
             }
+        }
+        // --- histories KF28 excuses (different component-/module-kinded requirements for one name): the result
+        // must be what the contract says or what the Impl layer says merge_world/merge_module_type do today
+        if kf == "component-or-module-requirement" && !err.as_deref().map(|e| e.starts_with("PANIC")).unwrap_or(false) {
+            let got: Option<BTreeMap<String, Value>> = match (&agg, &err) {
+                (Some(a), None) => Some(a.imports().map(|(n, k)| (n.to_string(), describe(a.types(), &sigs, k, true))).collect()),
+                _ => None,
+            };
+            let side = |ok: bool, imports: &Value| -> Option<BTreeMap<String, Value>> {
+                if !ok {
+                    return None;
+                }
+                Some(imports.as_object().map(|m| m.iter().map(|(n, k)| (n.clone(), norm_spec(k, got.as_ref().map(|g| g.get(n).unwrap_or(&Value::Null))))).collect()).unwrap_or_default())
+            };
+            let contract = side(want_ok, &v["imports"]);
+            let model = side(v["impl"]["ok"] == true, &v["impl"]["imports"]);
+            let show = |x: &Option<BTreeMap<String, Value>>| x.as_ref().map(|m| json!(m).to_string()).unwrap_or_else(|| "failure".into());
+            if got == contract {
+                // the property holds on this history
+            } else if got == model {
+                emit(&mut so, "world_merge", format!("aggregate yields {}, the contract says {}", show(&got), show(&contract)));
+            } else {
+                emit(&mut so, "world_merge_unexplained", format!("aggregate yields {}; neither the contract ({}) nor the model of merge_world/merge_module_type as they are ({})",
+                    show(&got), show(&contract), show(&model)));
+            }
+            continue;
         }
         match (&err, want_ok) {
             (Some(e), _) if e.starts_with("PANIC") => emit(&mut so, "panic", format!("aggregate panicked: {e}")),
